@@ -6,6 +6,7 @@ package main
 import (
 	"fmt"
 	"io"
+	"io/fs"
 	"os"
 	"sort"
 	"strings"
@@ -62,6 +63,8 @@ func (w *recW) Write(p []byte) (int, error) {
 			return len(p) / 2, fmt.Errorf("injected failure on writer %d after %d bytes", w.id, len(p)/2)
 		case 3:
 			return 0, sliceErr{fmt.Sprintf("injected failure on writer %d", w.id), "of an uncomparable error type"}
+		case 4: // what a file that its owner has closed (log rotation) reports; it may be reopened any time
+			return 0, &fs.PathError{Op: "write", Path: fmt.Sprintf("/var/log/writer%d.log", w.id), Err: os.ErrClosed}
 		}
 		return 0, fmt.Errorf("injected failure on writer %d", w.id)
 	}
